@@ -172,16 +172,23 @@ DTYPES = {'none': None, 'false': False, 'int64': 'int64', 'float64': 'float64', 
 class C18(PropCheck):
     pid = 'C18'
     header = HDR
-    case_type = 'Vectorize.case'
-    preds = (('Vectorize.agree', 'agree'), ('Vectorize.ok', 'ok'))
+    case_type = 'Vectorize.history'     # a list of calls on one vectorised callable; single-call cases are singleton histories
+    preds = (('Vectorize.agree_history', 'agree'), ('Vectorize.ok_history', 'ok'))
     chunk = 120
     rule = ('(a) a recording operation through elfi.tools.vectorize, called directly and as Simulator/Operation node of an ElfiModel '
             'generate(batch_size, seed) with probe node; arity 0-5, explicit constants masks (incl. masks naming arrays and out-of-range '
             'indices) or auto-detection, inputs = 1-d/2-d arrays, python/numpy scalars, 0-d arrays, lists, strings; batch_size given/omitted/0/1; '
             'dtype None/False/int64/float64/float32 with scalar, vector, tuple, str, ragged outputs; keyword arguments and meta dict; '
+            '(a2) multi-call histories on ONE vectorised callable (created once, constants given as list / tuple / None): 2-4 direct calls '
+            'with scalar-then-array, array-then-scalar, alternating kinds at an unmasked position, different batch sizes and arities, and '
+            'the same callable as node of an ElfiModel generated for 2-4 batches of different size interleaved with direct calls; every call '
+            'checked against the per-row specification of ITS OWN inputs and the caller\'s constants object compared with its initial contents '
+            'after every call; '
             '(b) external_operation with echo templates over positional/keyword/meta/seed inputs, direct, vectorized and inside a model with '
             'uses_meta on/off, stdout parsed with None/int32/int64/float64. Non-trivial = at least 2 rows and at least one non-constant and one '
-            'constant input (vectorize), or at least one placeholder and a seed in at least 2 rows (external); distinct by full input')
+            'constant input (vectorize), or at least one placeholder and a seed in at least 2 rows (external), or (history) at least 2 '
+            'completed calls one of which has at least 2 rows and either an unmasked position that is a non-array in one call and an array in '
+            'another or two different batch lengths; distinct by full input')
     trusted = ('subprocess (/bin/sh echo) and numpy.fromstring text parsing are runtime behaviour: sampled by the correspondence only',
                'numpy RandomState(seed).randint(2**31, size=K, dtype=uint32) as the stream fed to the C15 seed model',
                'external-command inputs restricted to ints and shell-safe strings (str() rendering modelled for those only)')
@@ -302,6 +309,139 @@ class C18(PropCheck):
         return dict(kind='vec', mode='model', parents=parents, constants=constants, n=n, dtype=dt, out_kind=out_kind,
                     node=node, uses_meta=r.random() < 0.5, seed=r.randrange(2 ** 31))
 
+    # -- histories: ONE vectorised callable, several calls ------------------------------------------------
+    SCALAR_KINDS = ['int', 'int', 'nint', 'float', 'str', 'list', 'a0', 'tuple', 'none']
+    ARRAY_KINDS = ['arr1', 'arr1', 'arr1f', 'arr2', 'arrs']
+    HIST_PATTERNS = ['scalar_then_array', 'array_then_scalar', 'alternate', 'sizes', 'mixed']
+
+    def gen_hist_constants(self, arity, leave_free=True):
+        """(constants as json list or None, kind of the object the caller passes: none / list / tuple)"""
+        r = self.rng
+        ck = r.choice(['none', 'list', 'list', 'list', 'tuple', 'empty_list', 'empty_tuple', 'oob_list'])
+        if ck == 'none':
+            return None, 'none'
+        if ck.startswith('empty'):
+            return [], ck.split('_')[1]
+        if ck == 'oob_list':
+            return [arity + r.randint(0, 2)], 'list'
+        hi = max(0, arity - 1) if leave_free else arity
+        cs = sorted(r.sample(range(arity), r.randint(0, hi))) if arity else []
+        if r.random() < 0.25:
+            r.shuffle(cs)
+        return cs, ck
+
+    def gen_call_extras(self, n):
+        """keyword arguments / generator / meta dict / batch_size of one direct call"""
+        r = self.rng
+        kw = []
+        if r.random() < 0.4:
+            kw.append(['foo', ['i', r.randint(0, 9)]])
+        if r.random() < 0.15:
+            kw.append(['bar', self.gen_value(n, kinds=['arr1', 'str', 'list'])])
+        rs = r.choice([None, None, r.randrange(2 ** 32)])
+        meta = None
+        if r.random() < 0.4:
+            meta = [['batch_index', r.randint(0, 5)], ['model_name', 'mm']]
+        bsm = r.choice(['omit', 'omit', 'omit', 'match', 'other'])
+        batch_size = None if bsm == 'omit' else (n if bsm == 'match' else r.choice([0, 1, 2, 5]))
+        return dict(kw=kw, rs=rs, meta=meta, batch_size=batch_size)
+
+    def gen_vec_hist(self, pattern):
+        """2-4 direct calls of one vectorised callable"""
+        r = self.rng
+        ncalls = r.choice([2, 2, 3, 3, 4])
+        arity = r.choice([1, 2, 2, 3, 3, 4])
+        constants, ckind = self.gen_hist_constants(arity)
+        free = [i for i in range(arity) if i not in (constants or [])]
+        pivot = r.choice(free) if free else None
+        if pattern == 'sizes':
+            sizes = r.sample([1, 2, 3, 4, 6], ncalls)
+        else:
+            sizes = [r.choice([1, 2, 2, 3, 4, 6]) for _ in range(ncalls)]
+        # array-ness of the pivot position per call
+        if pattern == 'scalar_then_array':
+            s = r.randint(1, ncalls - 1)
+            piv = ['S'] * s + ['A'] * (ncalls - s)
+        elif pattern == 'array_then_scalar':
+            s = r.randint(1, ncalls - 1)
+            piv = ['A'] * s + ['S'] * (ncalls - s)
+        elif pattern == 'alternate':
+            b = r.randint(0, 1)
+            piv = ['SA'[(k + b) % 2] for k in range(ncalls)]
+        elif pattern == 'sizes':
+            piv = ['A'] * ncalls
+        else:
+            piv = [None] * ncalls
+        calls = []
+        for k in range(ncalls):
+            n = sizes[k]
+            a = arity
+            if pattern == 'mixed' and r.random() < 0.25:
+                a = max(0, arity + r.choice([-1, 1]))
+            inputs = []
+            for j in range(a):
+                if j == pivot and piv[k] == 'S':
+                    inputs.append(self.gen_value(n, kinds=self.SCALAR_KINDS))
+                elif j == pivot and piv[k] == 'A':
+                    inputs.append(self.gen_value(n, kinds=self.ARRAY_KINDS))
+                elif pattern == 'mixed':
+                    inputs.append(self.gen_value(n))
+                else:
+                    # mostly well-formed companions so that the call completes
+                    inputs.append(self.gen_value(n, kinds=self.ARRAY_KINDS * 2 + self.SCALAR_KINDS + ['arr1bad']))
+            c = dict(inputs=inputs)
+            c.update(self.gen_call_extras(n))
+            calls.append(c)
+        dt = r.choice(['none', 'none', 'false', 'false', 'int64', 'float64'])
+        out_kind = r.choice(['tuple', 'str', 'ragged', 'int', 'vec']) if dt == 'false' else r.choice(['int', 'float', 'vec'])
+        self.bump('hist:pattern=' + pattern)
+        self.bump('hist:ncalls=%d' % ncalls)
+        self.bump('hist:consts=' + ckind + ('' if constants is None else ':%d' % len(constants)))
+        self.bump('hist:dtype=' + dt)
+        return dict(kind='vec', mode='hist', constants=constants, ckind=ckind, dtype=dt, out_kind=out_kind, calls=calls,
+                    positional=r.random() < 0.3)
+
+    def gen_vec_histmodel(self):
+        """one vectorised callable as node of an ElfiModel generated for several batches, interleaved with direct calls"""
+        r = self.rng
+        nb = r.choice([2, 2, 3, 4])
+        sizes = r.sample([1, 2, 3, 4, 5], nb)
+        if r.random() < 0.3:
+            sizes[-1] = sizes[0]
+        parents = self.gen_model_nodes(sizes[0])
+        arity = len(parents)
+        cm = r.choice(['none', 'none', 'mask', 'mask', 'constarrs', 'empty'])
+        if cm == 'none':
+            constants, ckind = None, 'none'
+        elif cm == 'empty':
+            constants, ckind = [], r.choice(['list', 'tuple'])
+        elif cm == 'mask':
+            constants, ckind = sorted(r.sample(range(arity), r.randint(0, arity - 1))), r.choice(['list', 'list', 'tuple'])
+        else:
+            constants, ckind = [i for i, p in enumerate(parents) if p[0] == 'const'], r.choice(['list', 'list', 'tuple'])
+        steps = [dict(t='batch', n=n, seed=r.randrange(2 ** 31)) for n in sizes]
+        # direct calls of the same callable with the kinds flipped w.r.t. what the model passes at the position
+        nd = r.choice([0, 1, 1, 2])
+        for _ in range(nd):
+            n = r.choice([1, 2, 3])
+            inputs = []
+            for (k, v) in parents:
+                arr_in_model = k in ('prior', 'randint') or (k == 'const' and v[0] == 'arr')
+                flip = r.random() < 0.7
+                inputs.append(self.gen_value(n, kinds=(self.SCALAR_KINDS if arr_in_model == flip else self.ARRAY_KINDS)))
+            c = dict(t='direct', inputs=inputs)
+            c.update(self.gen_call_extras(n))
+            steps.insert(r.randint(0, len(steps) - 1), c)     # never last: a model batch always follows a direct call
+        dt = r.choice(['none', 'false', 'float64'])
+        out_kind = r.choice(['tuple', 'str', 'int']) if dt == 'false' else r.choice(['int', 'float', 'vec'])
+        node = r.choice(['Simulator', 'Simulator', 'Operation', 'Summary'])
+        self.bump('histmodel:node=' + node)
+        self.bump('histmodel:consts=' + ckind)
+        self.bump('histmodel:batches=%d' % nb)
+        self.bump('histmodel:direct_calls=%d' % nd)
+        return dict(kind='vec', mode='histmodel', parents=parents, constants=constants, ckind=ckind, dtype=dt, out_kind=out_kind,
+                    node=node, uses_meta=r.random() < 0.5, steps=steps)
+
     def gen_template(self, arity, keys, numeric):
         r = self.rng
         toks = [['L', 'echo ']]
@@ -392,6 +532,11 @@ class C18(PropCheck):
         for g, k in plan:
             for _ in range(k):
                 yield g()
+        # multi-call histories on one vectorised callable: every pattern on every run
+        for i in range(150 if q else 2500):
+            yield self.gen_vec_hist(self.HIST_PATTERNS[i % len(self.HIST_PATTERNS)])
+        for _ in range(30 if q else 400):
+            yield self.gen_vec_histmodel()
 
     # -- implementation drivers ------------------------------------------------------------------
     def build_model(self, case, make_node):
@@ -409,91 +554,168 @@ class C18(PropCheck):
             names.append(nm)
         return m, names
 
-    def run_vec(self, case):
-        import elfi
-        rec = Recorder(case['out_kind'])
-        dtype = DTYPES[case['dtype']]
-        res = dict(error=None)
-        if case['mode'] == 'direct':
-            inputs = [build(s) for s in case['inputs']]
-            consts = case['constants']
-            if consts is not None and case.get('ctuple'):
-                consts = tuple(consts)
-            kwargs = {k: build(v) for k, v in case['kw']}
-            if case['rs'] is not None:
-                kwargs['random_state'] = np.random.RandomState(case['rs'])
-            metad = None
-            if case['meta'] is not None:
-                metad = {k: v for k, v in case['meta']}
-                kwargs['meta'] = metad
-            given_kw, given_meta = split_kwargs(kwargs)
-            given_ids = {k: id(v) for k, v in kwargs.items()}
-            vop = elfi.tools.vectorize(rec, constants=consts, dtype=dtype) if self.rng.random() < 0.7 \
-                else elfi.tools.vectorize(rec, consts, dtype)
-            if case['batch_size'] is not None:
-                kwargs['batch_size'] = case['batch_size']
-            try:
-                ret = vop(*inputs, **kwargs)
-            except ValueError as e:
-                ret = None
-                res['error'] = 'ValueError'
-            res.update(inputs=[canon(x) for x in inputs], input_ids=[id(x) for x in inputs], kw=given_kw, meta=given_meta,
-                       given_ids=given_ids, batch_size=case['batch_size'])
-        else:
-            m, names = self.build_model(case, None)
-            cls = getattr(elfi, case['node'])
-            node = cls(elfi.tools.vectorize(rec, constants=case['constants'], dtype=dtype), *[m[nm] for nm in names], model=m, name='node')
-            plog = []
+    # one vectorised callable -----------------------------------------------------------------------------
+    @staticmethod
+    def consts_object(constants, ckind):
+        """the object the caller passes as [constants]"""
+        if constants is None:
+            return None
+        return tuple(constants) if ckind == 'tuple' else list(constants)
 
-            def probe(*a, **k):
-                plog.append((a, dict(k)))
-                return np.zeros(k.get('batch_size', 1))
-            pnode = cls(probe, *[m[nm] for nm in names], model=m, name='probe')
-            if case['uses_meta']:
-                node.uses_meta = True
-                pnode.uses_meta = True
-            pout = m.generate(case['n'], outputs=names + ['probe'], seed=case['seed'])
-            pa, pk = plog[-1]
-            inputs = list(pa)
-            try:
-                out = m.generate(case['n'], outputs=names + ['node', 'probe'], seed=case['seed'])
-                ret = out['node']
-                same = all(np.array_equal(np.asarray(out[nm]), np.asarray(pout[nm])) for nm in names)
-            except ValueError:
-                ret = None
-                same = True
-                res['error'] = 'ValueError'
-            pk = dict(pk)
-            bs = pk.pop('batch_size', None)
-            if 'meta' in pk:
-                pk['meta'] = {k: v for k, v in pk['meta'].items() if k != 'index_in_batch'}
-            given_kw, given_meta = split_kwargs(pk)
-            res.update(inputs=[canon(x) for x in inputs], input_ids=None, kw=given_kw, meta=given_meta, given_ids=None,
-                       batch_size=bs, parents_reproducible=same,
-                       expected_keys=sorted((['random_state'] if case['node'] == 'Simulator' else [])))
-        res['n_logged'] = len(rec.log)
+    @staticmethod
+    def consts_state(vop, obj):
+        """what can be seen of the caller's constants object (and of the one held by the partial) right now"""
+        st = dict(type=type(obj).__name__, contents=None if obj is None else [int(x) for x in obj])
+        kws = getattr(vop, 'keywords', None)
+        if isinstance(kws, dict) and 'constants' in kws:
+            h = kws['constants']
+            st['held_type'] = type(h).__name__
+            st['held'] = None if h is None else [int(x) for x in h]
+        return st
+
+    def observe(self, rec, start, ret, dtype, res):
+        """fill [res] with the observation of ONE finished call of the vectorised callable: the recorder's log from [start] on
+        belongs to it; [ret] is None when the call raised ValueError"""
+        log = rec.log[start:]
+        outs = rec.outs[start:]
+        res['n_logged'] = len(log)
         if ret is None:
             res.update(calls=None, obj=False)
             return res
         ret = np.asarray(ret) if not isinstance(ret, np.ndarray) else ret
         obj = bool(ret.dtype == object and ret.ndim == 1)
-        order = [which_call(rec, ret[i], obj) for i in range(len(ret))] if ret.ndim > 0 else ['scalar']
+        order = []
+        if ret.ndim > 0:
+            for i in range(len(ret)):
+                k = which_call(rec, ret[i], obj)
+                order.append(None if k is None else k - start)
+        else:
+            order = ['scalar']
         calls = []
         for k in order:
-            if k is None or k == 'scalar' or not (0 <= k < len(rec.log)):
+            if k is None or k == 'scalar' or not (0 <= k < len(log)):
                 calls.append(dict(args=[['S', 'unmatched-output']], kw=[], meta=None))
             else:
-                c = rec.log[k]
+                c = log[k]
                 calls.append(dict(args=c['args'], kw=c['kw'], meta=c['meta']))
         res.update(calls=calls, obj=obj, order=order, ret_dtype=str(ret.dtype), ret_shape=list(ret.shape),
-                   log_ids=[dict(arg_ids=c['arg_ids'], kw_ids=c['kw_ids']) for c in rec.log])
+                   log_ids=[dict(arg_ids=c['arg_ids'], kw_ids=c['kw_ids']) for c in log])
         # numpy's own conversion of the raw outputs, for the dtype clause
         if dtype is not False:
             try:
-                exp = np.array(rec.outs, dtype=dtype)
+                exp = np.array(outs, dtype=dtype)
                 res['conv_equal'] = bool(exp.dtype == ret.dtype and exp.shape == ret.shape and np.array_equal(exp, ret))
             except Exception as e:
                 res['conv_equal'] = 'numpy raised %r' % e
+        return res
+
+    def direct_call(self, vop, rec, dtype, spec, consts_obj):
+        """one direct call of the vectorised callable with the inputs of [spec]; returns its observation"""
+        res = dict(error=None, how='direct', specs=spec['inputs'])
+        inputs = [build(s) for s in spec['inputs']]
+        kwargs = {k: build(v) for k, v in spec['kw']}
+        if spec['rs'] is not None:
+            kwargs['random_state'] = np.random.RandomState(spec['rs'])
+        if spec['meta'] is not None:
+            kwargs['meta'] = {k: v for k, v in spec['meta']}
+        given_kw, given_meta = split_kwargs(kwargs)
+        given_ids = {k: id(v) for k, v in kwargs.items()}
+        if spec['batch_size'] is not None:
+            kwargs['batch_size'] = spec['batch_size']
+        start = len(rec.log)
+        res['consts_before'] = self.consts_state(vop, consts_obj)
+        try:
+            ret = vop(*inputs, **kwargs)
+        except ValueError:
+            ret = None
+            res['error'] = 'ValueError'
+        res['consts_after'] = self.consts_state(vop, consts_obj)
+        res.update(inputs=[canon(x) for x in inputs], input_ids=[id(x) for x in inputs], kw=given_kw, meta=given_meta,
+                   given_ids=given_ids, batch_size=spec['batch_size'])
+        self.observe(rec, start, ret, dtype, res)
+        res['_keep'] = (inputs, kwargs)     # keeps the objects alive so that ids stay unique within the history
+        return res
+
+    def model_call(self, m, names, vop, rec, dtype, n, seed, consts_obj):
+        """one batch of the model whose node 'node' is the vectorised callable; given inputs/kwargs from the probe node"""
+        res = dict(error=None, how='model')
+        plog = self._plog
+        pout = m.generate(n, outputs=names + ['probe'], seed=seed)
+        pa, pk = plog[-1]
+        inputs = list(pa)
+        start = len(rec.log)
+        res['consts_before'] = self.consts_state(vop, consts_obj)
+        try:
+            out = m.generate(n, outputs=names + ['node', 'probe'], seed=seed)
+            ret = out['node']
+            same = all(np.array_equal(np.asarray(out[nm]), np.asarray(pout[nm])) for nm in names)
+        except ValueError:
+            ret = None
+            same = True
+            res['error'] = 'ValueError'
+        res['consts_after'] = self.consts_state(vop, consts_obj)
+        pk = dict(pk)
+        bs = pk.pop('batch_size', None)
+        if 'meta' in pk:
+            pk['meta'] = {k: v for k, v in pk['meta'].items() if k != 'index_in_batch'}
+        given_kw, given_meta = split_kwargs(pk)
+        res.update(inputs=[canon(x) for x in inputs], input_ids=None, kw=given_kw, meta=given_meta, given_ids=None,
+                   batch_size=bs, parents_reproducible=same)
+        self.observe(rec, start, ret, dtype, res)
+        return res
+
+    def make_model(self, case, vop):
+        import elfi
+        m, names = self.build_model(case, None)
+        cls = getattr(elfi, case['node'])
+        node = cls(vop, *[m[nm] for nm in names], model=m, name='node')
+        self._plog = plog = []
+
+        def probe(*a, **k):
+            plog.append((a, dict(k)))
+            return np.zeros(k.get('batch_size', 1))
+        pnode = cls(probe, *[m[nm] for nm in names], model=m, name='probe')
+        if case['uses_meta']:
+            node.uses_meta = True
+            pnode.uses_meta = True
+        return m, names
+
+    def run_vec(self, case):
+        import elfi
+        rec = Recorder(case['out_kind'])
+        dtype = DTYPES[case['dtype']]
+        mode = case['mode']
+        ckind = case.get('ckind') or ('tuple' if case.get('ctuple') else 'list')
+        consts_obj = self.consts_object(case['constants'], ckind)
+        positional = case['positional'] if 'positional' in case else (mode == 'direct' and self.rng.random() >= 0.7)
+        vop = elfi.tools.vectorize(rec, consts_obj, dtype) if positional else elfi.tools.vectorize(rec, constants=consts_obj, dtype=dtype)
+        if mode == 'direct':
+            calls = [self.direct_call(vop, rec, dtype, case, consts_obj)]
+        elif mode == 'model':
+            m, names = self.make_model(case, vop)
+            calls = [self.model_call(m, names, vop, rec, dtype, case['n'], case['seed'], consts_obj)]
+        elif mode == 'hist':
+            calls = [self.direct_call(vop, rec, dtype, spec, consts_obj) for spec in case['calls']]
+        else:   # histmodel
+            m, names = self.make_model(case, vop)
+            calls = []
+            for st in case['steps']:
+                if st['t'] == 'batch':
+                    calls.append(self.model_call(m, names, vop, rec, dtype, st['n'], st['seed'], consts_obj))
+                else:
+                    calls.append(self.direct_call(vop, rec, dtype, st, consts_obj))
+        for c in calls:
+            c.pop('_keep', None)
+        self._plog = None
+        res = dict(hist=calls, error=calls[0]['error'] if len(calls) == 1 else None)
+        if mode in ('hist', 'histmodel'):
+            cs = set(case['constants'] or [])
+            arrs = [[(x[0] == 'A') for x in c['inputs']] for c in calls]
+            # an unmasked position that one call auto-detects as constant and another call receives as a batch array
+            res['kind_switch'] = any(j not in cs and j < len(b) and a[j] != b[j]
+                                     for ia, a in enumerate(arrs) for b in arrs[ia + 1:] for j in range(len(a)))
+            res['scalar_then_array'] = any(j not in cs and j < len(b) and (not a[j]) and b[j]
+                                           for ia, a in enumerate(arrs) for b in arrs[ia + 1:] for j in range(len(a)))
         return res
 
     def run_ext(self, case):
@@ -587,44 +809,84 @@ class C18(PropCheck):
     def run_impl(self, case):
         if case['kind'] == 'vec':
             out = self.run_vec(case)
-            self.bump('outcome:vec:%s:%s' % (case['mode'], out['error'] or 'ok'))
+            for c in out['hist']:
+                self.bump('outcome:vec:%s:%s' % (case['mode'], c['error'] or 'ok'))
+            if len(out['hist']) > 1:
+                self.bump('history:calls', len(out['hist']))
+                self.bump('history:kind_switch_at_unmasked_position=%s' % out['kind_switch'])
+                self.bump('history:scalar_then_array_at_unmasked_position=%s' % out['scalar_then_array'])
+                done = [c for c in out['hist'] if c['calls'] is not None]
+                self.bump('history:completed_calls=%d' % len(done))
+                self.bump('history:distinct_batch_lengths=%d' % len({len(c['calls']) for c in done}))
         else:
             out = self.run_ext(case)
             self.bump('outcome:ext:%s:%s' % (case['mode'], out['outcome']))
         return out
 
     # -- python-side clauses ---------------------------------------------------------------------
+    def py_vec_call(self, case, out, tag):
+        """clauses on ONE call of the vectorised callable ([out] = its observation)"""
+        bad = []
+        # the constants object the caller passed (and the partial holds) has the same type and contents as before the call and as at
+        # creation: auto-detected constants of this call must not be written into it
+        ckind = case.get('ckind') or ('tuple' if case.get('ctuple') else 'list')
+        want = dict(type='NoneType' if case['constants'] is None else ckind, contents=case['constants'])
+        for when in ('consts_before', 'consts_after'):
+            st = out[when]
+            if st['type'] != want['type'] or st['contents'] != want['contents']:
+                bad.append(('constants_unchanged', '%sthe caller\'s constants object is %s %s %s, it was created as %s %s'
+                            % (tag, st['type'], st['contents'], 'before the call' if when == 'consts_before' else 'after the call',
+                               want['type'], want['contents'])))
+                break
+            if 'held' in st and (st['held'] != want['contents'] or st['held_type'] != want['type']):
+                bad.append(('constants_unchanged', '%sthe constants held by the vectorised callable are %s %s %s, created with %s %s'
+                            % (tag, st['held_type'], st['held'], 'before the call' if when == 'consts_before' else 'after the call',
+                               want['type'], want['contents'])))
+                break
+        if out['calls'] is None:
+            if out['n_logged']:
+                bad.append(('rejected_but_called', '%sValueError raised after %d operation calls' % (tag, out['n_logged'])))
+            return bad
+        dt = case['dtype']
+        if dt == 'false':
+            if not out['obj']:
+                bad.append(('dtype_false', '%sdtype=False did not give a 1-d object array: dtype=%s shape=%s' % (tag, out['ret_dtype'], out['ret_shape'])))
+        else:
+            if out.get('conv_equal') is not True:
+                bad.append(('dtype_conv', '%sreturned array is not numpy.array(outputs, dtype=%s): %s' % (tag, dt, out.get('conv_equal'))))
+        if out['order'] != list(range(out['n_logged'])):
+            bad.append(('entry_order', '%sentry i of the result is not the output of the i-th call: %s (calls made: %d)' % (tag, out['order'], out['n_logged'])))
+        if out['how'] == 'direct':
+            # "unchanged": constants and keyword arguments are the very objects that were passed
+            cs = set(case['constants'] or [])
+            for c in out['log_ids']:
+                for j, (sp, a_id, i_id) in enumerate(zip(out['specs'], c['arg_ids'], out['input_ids'])):
+                    is_arr = sp[0] == 'arr'
+                    if (j in cs or not is_arr) and a_id != i_id:
+                        bad.append(('constant_identity', '%sconstant input %d was not passed as the same object' % (tag, j)))
+                for k, i_id in out['given_ids'].items():
+                    if c['kw_ids'].get(k) != i_id:
+                        bad.append(('kwarg_identity', '%skeyword %s was not passed as the same object' % (tag, k)))
+                if 'batch_size' in c['kw_ids']:
+                    bad.append(('batch_size_forwarded', '%sbatch_size reached the operation' % tag))
+        else:
+            if not out['parents_reproducible']:
+                bad.append(('harness_parents', '%sparent outputs differ between two generate calls with one seed' % tag))
+        return bad
+
     def py_check(self, case, out):
         bad = []
         if case['kind'] == 'vec':
-            if out['calls'] is None:
-                return bad
-            dt = case['dtype']
-            if dt == 'false':
-                if not out['obj']:
-                    bad.append(('dtype_false', 'dtype=False did not give a 1-d object array: dtype=%s shape=%s' % (out['ret_dtype'], out['ret_shape'])))
-            else:
-                if out.get('conv_equal') is not True:
-                    bad.append(('dtype_conv', 'returned array is not numpy.array(outputs, dtype=%s): %s' % (dt, out.get('conv_equal'))))
-            if out['order'] != list(range(out['n_logged'])):
-                bad.append(('entry_order', 'entry i of the result is not the output of the i-th call: %s (calls made: %d)' % (out['order'], out['n_logged'])))
-            if case['mode'] == 'direct':
-                # "unchanged": constants and keyword arguments are the very objects that were passed
-                cs = set(case['constants'] or [])
-                for c in out['log_ids']:
-                    for j, (sp, a_id, i_id) in enumerate(zip(case['inputs'], c['arg_ids'], out['input_ids'])):
-                        is_arr = sp[0] == 'arr'
-                        if (j in cs or not is_arr) and a_id != i_id:
-                            bad.append(('constant_identity', 'constant input %d was not passed as the same object' % j))
-                    for k, i_id in out['given_ids'].items():
-                        if c['kw_ids'].get(k) != i_id:
-                            bad.append(('kwarg_identity', 'keyword %s was not passed as the same object' % k))
-                    if 'batch_size' in c['kw_ids']:
-                        bad.append(('batch_size_forwarded', 'batch_size reached the operation'))
-            else:
-                if not out['parents_reproducible']:
-                    bad.append(('harness_parents', 'parent outputs differ between two generate calls with one seed'))
-            return bad[:3]
+            many = len(out['hist']) > 1
+            for k, c in enumerate(out['hist']):
+                bad.extend(self.py_vec_call(case, c, 'call %d of %d on one vectorised callable: ' % (k, len(out['hist'])) if many else ''))
+            # one line per clause
+            seen, res = set(), []
+            for cl, msg in bad:
+                if cl not in seen:
+                    seen.add(cl)
+                    res.append((cl, msg))
+            return res[:3]
         # ext
         if out['outcome'] == 'ok':
             for row in out['rows']:
@@ -641,14 +903,23 @@ class C18(PropCheck):
 
     def nontrivial(self, case, out):
         if case['kind'] == 'vec':
-            if not out['calls'] or len(out['calls']) < 2:
-                return None
             cs = set(case['constants'] or [])
-            isarr = [c[0] == 'A' for c in out['inputs']]
-            nonconst = any(a and j not in cs for j, a in enumerate(isarr))
-            const = any((not a) or j in cs for j, a in enumerate(isarr))
-            if not (nonconst and const):
-                return None
+            done = [c for c in out['hist'] if c['calls'] is not None]
+            if len(out['hist']) > 1:
+                # history: two completed calls, one with >= 2 rows, and a kind switch at an unmasked position or two batch lengths
+                if len(done) < 2 or max(len(c['calls']) for c in done) < 2:
+                    return None
+                if not (out.get('kind_switch') or len({len(c['calls']) for c in done}) > 1):
+                    return None
+            else:
+                c = out['hist'][0]
+                if not c['calls'] or len(c['calls']) < 2:
+                    return None
+                isarr = [x[0] == 'A' for x in c['inputs']]
+                nonconst = any(a and j not in cs for j, a in enumerate(isarr))
+                const = any((not a) or j in cs for j, a in enumerate(isarr))
+                if not (nonconst and const):
+                    return None
         else:
             seeds = [r['seed'] for r in out['rows'] if r['seed'] is not None]
             if len(seeds) < 2 or not any(t[0] != 'L' for t in case['toks']):
@@ -666,11 +937,15 @@ class C18(PropCheck):
     def to_coq(self, case, out):
         cconst = copt(case['constants'], lambda c: clist([cnat(i) for i in c]))
         if case['kind'] == 'vec':
-            impl = copt(out['calls'], lambda cs: clist([ccall(c) for c in cs]))
-            return ('(CVec {| v_inputs := %s; v_constants := %s; v_batch_size := %s; v_kw := %s; v_meta := %s; '
-                    'v_dtype_false := %s; v_impl := %s; v_impl_obj := %s |})'
-                    % (clist([cval(x) for x in out['inputs']]), cconst, copt(out['batch_size'], cnat), cdict(out['kw']),
-                       copt(out['meta'], cdict), cbool(case['dtype'] == 'false'), impl, cbool(out['obj'])))
+            # a history = the list of its calls; every call is judged against ITS OWN inputs and the constants the CALLER passed at creation
+            terms = []
+            for c in out['hist']:
+                impl = copt(c['calls'], lambda cs: clist([ccall(x) for x in cs]))
+                terms.append('(CVec {| v_inputs := %s; v_constants := %s; v_batch_size := %s; v_kw := %s; v_meta := %s; '
+                             'v_dtype_false := %s; v_impl := %s; v_impl_obj := %s |})'
+                             % (clist([cval(x) for x in c['inputs']]), cconst, copt(c['batch_size'], cnat), cdict(c['kw']),
+                                copt(c['meta'], cdict), cbool(case['dtype'] == 'false'), impl, cbool(c['obj'])))
+            return clist(terms)
         # ext
         oc = out['outcome']
         if case['mode'] == 'direct':
@@ -719,8 +994,8 @@ class C18(PropCheck):
         inputs = out.get('inputs')
         if inputs is None:
             return None
-        return ('(CExt {| e_toks := %s; e_inputs := %s; e_constants := %s; e_batch_size := %s; e_vectorized := %s; e_kw := %s; '
-                'e_meta := %s; e_rs := %s; e_first_only := %s; e_impl := %s |})'
+        return ('[CExt {| e_toks := %s; e_inputs := %s; e_constants := %s; e_batch_size := %s; e_vectorized := %s; e_kw := %s; '
+                'e_meta := %s; e_rs := %s; e_first_only := %s; e_impl := %s |}]'
                 % (clist([ctok(t) for t in case['toks']]), clist([cval(x) for x in inputs]), cconst, copt(bs, cnat),
                    cbool(case['vectorized']), cdict(kw), copt(meta, cdict), rs, cbool(first_only), impl))
 
